@@ -128,14 +128,96 @@ CONFIGS = {
 BENCHES = {n: partial(conv_bench, n, **c[0]) for n, c in CONFIGS.items()}
 
 
+def getport_address_space(ctx):
+    """crossbar.get_port(data_width=...): the converted port must be a byte-addressed view of exactly the same memory as the
+    controller-width port -- no user address beyond the memory (it would alias after truncation in the converter), none missing"""
+    import time
+    import z3
+    from litedram.core.crossbar import LiteDRAMCrossbar
+    from litedram.core.controller import ControllerSettings
+    from litedram.common import LiteDRAMInterface, GeomSettings
+    from vlib import cfg
+    for native_dw, geom in ((32, dict(bankbits=2, rowbits=5, colbits=4)), (128, dict(bankbits=3, rowbits=14, colbits=10))):
+        for user_dw in (8, 16, 32, 64, 128, 256, 512):
+            if user_dw == native_dw:
+                continue
+            for mode in ("both", "read", "write"):
+                if mode == "both" and user_dw < native_dw and False:
+                    continue
+                label = "getport_%dto%d_%s" % (user_dw, native_dw, mode)
+                if ctx.only and not ctx.only.search(label):
+                    continue
+                t0 = time.time()
+                cs = ControllerSettings(cmd_buffer_depth=4)
+                cs.phy = cfg.phy_settings(dfi_databits=native_dw, read_latency=1, write_latency=0)
+                cs.geom = GeomSettings(**geom)
+                cs.timing = cfg.timing_settings()
+                iface = LiteDRAMInterface(0, cs)
+                xbar = LiteDRAMCrossbar(iface)
+                try:
+                    pn = xbar.get_port(mode=mode)
+                    pu = xbar.get_port(mode=mode, data_width=user_dw)
+                except Exception as e:
+                    ctx.oblige(label + ":get_port_elaborates", "sat", time.time() - t0, detail=repr(e))
+                    path = ctx.write_replay(label, "get_port_elaborates", dict(user_dw=user_dw, native_dw=native_dw, mode=mode, error=repr(e)))
+                    ctx.violation(label, "get_port_elaborates", path)
+                    continue
+                awn, awu = len(pn.cmd.addr), len(pu.cmd.addr)
+                ub, nb = len(pu.wdata.data if mode != "read" else pu.rdata.data) // 8, len(pn.wdata.data if mode != "read" else pn.rdata.data) // 8
+                A, L, X = z3.BitVec("user_addr", awu), z3.Int("lane"), z3.Int("byte_addr")
+                mem_bytes = (1 << awn) * nb
+                ba = z3.BV2Int(A) * ub + L
+                for q, cons in (("no_user_address_beyond_the_memory", [L >= 0, L < ub, ba >= mem_bytes]),
+                                ("every_memory_byte_has_a_user_address", [X >= 0, X < mem_bytes, X >= (1 << awu) * ub])):
+                    sv = z3.Solver()
+                    sv.add(*cons)
+                    r = str(sv.check())
+                    ctx.oblige("%s:%s" % (label, q), r, time.time() - t0,
+                               detail="user aw=%d x %d bytes, controller aw=%d x %d bytes" % (awu, ub, awn, nb))
+                    if r == "sat":
+                        mdl = sv.model()
+                        # replay: the widths come from the real elaborated ports, the model is a concrete out-of-range address
+                        path = ctx.write_replay(label, q, dict(user_dw=user_dw, native_dw=native_dw, mode=mode, geom=geom,
+                                                               model={str(d): str(mdl[d]) for d in mdl.decls()},
+                                                               user_aw=awu, native_aw=awn))
+                        ctx.violation(label, q, path)
+                ctx.states += 1
+    ctx.extra["functions_encoded_getport"] = ["litedram.core.crossbar.LiteDRAMCrossbar.get_port (port widths of the elaborated ports)"]
+
+
+def replay_custom(data):
+    import z3
+    from litedram.core.crossbar import LiteDRAMCrossbar
+    from litedram.core.controller import ControllerSettings
+    from litedram.common import LiteDRAMInterface, GeomSettings
+    from vlib import cfg
+    cs = ControllerSettings(cmd_buffer_depth=4)
+    cs.phy = cfg.phy_settings(dfi_databits=data["native_dw"], read_latency=1, write_latency=0)
+    cs.geom = GeomSettings(**data["geom"])
+    cs.timing = cfg.timing_settings()
+    xbar = LiteDRAMCrossbar(LiteDRAMInterface(0, cs))
+    pn = xbar.get_port(mode=data["mode"])
+    pu = xbar.get_port(mode=data["mode"], data_width=data["user_dw"])
+    tot_n = (1 << len(pn.cmd.addr)) * pn.data_width // 8
+    tot_u = (1 << len(pu.cmd.addr)) * pu.data_width // 8
+    print("controller-width port spans %d bytes, converted port spans %d bytes" % (tot_n, tot_u))
+    if tot_n != tot_u:
+        print("VIOLATION property=C07 replay=%s" % data.get("path", "<file>"))
+        return 1
+    return 0
+
+
 def run(ctx):
+    getport_address_space(ctx)
     ctx.assume("user master: command held until accepted; write data offered together with its command and held until "
                "taken, one write-data beat in flight at a time; read data always accepted; <= 3 reads outstanding")
     ctx.assume("controller side: in-order memory with the real crossbar's contract (wdata.ready / rdata.valid are single "
                "pulses that do not wait for valid/ready), arbitrary stalls, response latency >= 2 cycles, <= 3 commands queued")
     ctx.assume("'asc_' benches: consecutive same-direction commands inside one wide word use strictly ascending addresses; "
                "'anyorder_' benches drop that restriction (known finding on the up-converter)")
-    ctx.assume("address shift of crossbar.get_port(data_width=...) is covered by C06-style width bookkeeping, not here")
+    ctx.assume("crossbar.get_port(data_width=...): address-space obligations on the real elaborated ports (widths 8..512 bits on "
+               "32- and 128-bit controllers, all modes); its converter is the one the benches elaborate; the command path of a "
+               "converted port through the real crossbar arbitration is exercised by C08's get_port bench")
     for n, (c, kq, kt, tiers) in CONFIGS.items():
         if ctx.only and not ctx.only.search(n):
             continue
